@@ -732,6 +732,13 @@ def gen_los(rng):
     if kind == "indivGev":
         c["gev"] = {"xi": round(rng.uniform(-0.3, 0.3), 3), "mean": round(rng.uniform(-0.1, 0.2), 4),
                     "sigma": round(rng.uniform(0.005, 0.2), 4)}
+    if c["seed"] % 4 == 0:
+        # the Gumbel limit of the extreme-value law and its immediate neighbourhood: xi exactly 0 (a shape parameter held
+        # fixed at 0), -0.0, and values of the order of the machine precision
+        special = [0.0, -0.0, 1e-15, -3e-16][(c["seed"] // 4) % 4]
+        c["kwargs_los"][c["idx"]]["xi"] = special
+        if "gev" in c:
+            c["gev"]["xi"] = special
     if rng.random() < 0.5:
         # the object has been used before, with hyper-parameters that differ in ONE entry of the assigned population
         # (a sampler moving along one coordinate): the draws depend on the current hyper-parameters only
@@ -995,6 +1002,8 @@ def gen_stat(rng, n):
                 "sigma": round(rng.uniform(0.01, 0.2), 3), "xi": 0.0})
     out.append({"fn": "stat", "what": "los", "name": "GEV", "mean": round(rng.uniform(-0.1, 0.2), 3),
                 "sigma": round(rng.uniform(0.01, 0.2), 3), "xi": round(rng.uniform(-0.3, 0.3), 3)})
+    out.append({"fn": "stat", "what": "los", "name": "GEV", "mean": 0.03, "sigma": 0.05, "xi": 0.0})
+    out.append({"fn": "stat", "what": "los", "name": "GEV", "mean": 0.03, "sigma": 0.05, "xi": 1e-15})
     for c in out:
         c["n"] = n
         c["seed"] = rng.randrange(2 ** 31)
